@@ -250,3 +250,24 @@ Proof.
   assert (Zlen rest = 0) by lia.
   destruct rest; [reflexivity|]. unfold Zlen in H. cbn [length] in H. lia.
 Qed.
+
+Theorem tls_parsers_all : forall msg,
+  (head_is 1 msg -> pres (pull_client_hello msg)) /\
+  (head_is 2 msg -> pres (pull_server_hello msg)) /\
+  (head_is 8 msg -> pres (pull_encrypted_extensions msg)) /\
+  (head_is 11 msg -> pres (pull_certificate msg)) /\
+  (head_is 13 msg -> pres (pull_certificate_request msg)) /\
+  (head_is 15 msg -> pres (pull_certificate_verify msg)) /\
+  (head_is 20 msg -> pres (pull_finished msg)) /\
+  (head_is 4 msg -> pres (pull_new_session_ticket msg)).
+Proof.
+  intros msg. repeat split.
+  - apply pres_pull_client_hello.
+  - apply pres_pull_server_hello.
+  - apply pres_pull_encrypted_extensions.
+  - apply pres_pull_certificate.
+  - apply pres_pull_certificate_request.
+  - apply pres_pull_certificate_verify.
+  - apply pres_pull_finished.
+  - apply pres_pull_new_session_ticket.
+Qed.
